@@ -338,6 +338,64 @@ fn run_host_refresh(ttl: u32, obs: u64, answered: u64, v6: bool, trace: bool) ->
     res
 }
 
+// ---------------------------------------------------------------- S: cache flush on the records of a browsed instance
+
+/// Browse on two interfaces; an instance is learned on the first; later a changed SRV (other port)
+/// or TXT arrives.  x = [0 SRV / 1 TXT, 0 on the same interface / 1 on the other one, gap index,
+/// cache-flush bit].  For these record types the interface does not matter: with the bit and more
+/// than a second between them the older record is gone one second after the new one arrived.
+fn run_flush_service(x: &[u64], trace: bool) -> CaseResult {
+    let mut res = CaseResult::default();
+    let mut w = World::one(lay_two());
+    w.trace = trace;
+    w.ds[0].h.set_ip_check_interval(0).unwrap();
+    w.poke(0);
+    let rx = w.ds[0].h.browse("_t._tcp.local.").unwrap();
+    let ch = w.add_browse(0, rx);
+    w.poke(0);
+    w.advance(100);
+    let i = Inst::simple("inst", "h", [10, 0, 0, 9]);
+    w.deliver(0, IF0, PEER0, build(&response(i.all(120))));
+    let gap = [500u64, 1500, 3000][x[2] as usize];
+    w.advance(gap);
+    let mut newrec = if x[0] == 0 { srv(&i.inst, &i.host, 8080, 120) } else { txt(&i.inst, &[3, b'n', b'=', b'2'], 120) };
+    newrec.flush = x[3] == 1;
+    let (ifi, src) = if x[1] == 0 { (IF0, PEER0) } else { (IF1, PEER1) };
+    let t_new = w.now;
+    w.deliver(0, ifi, src, build(&response(vec![newrec])));
+    w.advance(1100);
+    let counter = if x[0] == 0 { "cached-srv" } else { "cached-txt" };
+    let have = w.metrics(0).and_then(|m| m.get(counter).copied()).unwrap_or(-1);
+    let displaced = x[3] == 1 && gap > 1000;
+    let want = if displaced { 1 } else { 2 };
+    let ctx = format!("{} with the cache-flush bit {} arrives on the {} interface {gap} ms after the first copy; 1.1 s later {counter} = {have}", if x[0] == 0 { "SRV (other port)" } else { "TXT (other data)" }, if x[3] == 1 { "set" } else { "clear" }, if x[1] == 0 { "same" } else { "other" });
+    if displaced {
+        res.count("service_record_displacements_expected", 1);
+    } else {
+        res.count("service_record_kept_expected", 1);
+    }
+    if have != want {
+        let sig = if have > want { "C11|S|flushed-service-record-not-removed-one-second-after-the-flush" } else { "C11|S|service-record-removed-although-not-displaced" };
+        res.viols.push(viol(format!("{sig}|{}|{}", if x[0] == 0 { "SRV" } else { "TXT" }, if x[1] == 0 { "same-interface" } else { "other-interface" }), ctx.clone()));
+    }
+    // what the client is told afterwards uses the new record
+    if displaced && x[0] == 0 {
+        w.deliver(0, IF0, PEER0, build(&response(vec![txt(&i.inst, &[3, b'z', b'=', b'9'], 120)])));
+        let last = bevs(&w, 0, ch, 0).iter().rev().find_map(|(t, e)| match e { BEv::Resolved(r) if *t > t_new + 1000 => Some(r.port), _ => None });
+        if last.is_some_and(|p| p != 8080) {
+            res.viols.push(viol("C11|S|displaced-record-still-used", format!("{ctx}; a ServiceResolved after that shows port {last:?}")));
+        }
+    }
+    if let Some(f) = daemon_fault(&w, 0) {
+        res.viols.push(viol("C11|daemon-fault", f));
+    }
+    res.nontrivial = true;
+    res.transitions = w.steps;
+    res.outcome = outcome_hash(&w.log);
+    res.states = final_states(&w);
+    res
+}
+
 // ---------------------------------------------------------------- S: cache flush on addresses
 
 const GAPS: [u64; 6] = [0, 500, 1000, 1001, 2000, 3000];
@@ -485,6 +543,18 @@ pub fn check(tier: &str) -> i32 {
     rep.run_part(&hostr, Duration::from_secs(300));
     rep.require("S-refresh-of-a-resolved-host-address", "host_marks_checked");
     rep.require("S-refresh-of-a-resolved-host-address", "host_removal_at_ttl");
+
+    let sdims = [2u64, 2, 3, 2];
+    let fs = FnPart {
+        name: "S-cache-flush-of-service-records".into(),
+        rule: "browse on two interfaces, an instance learned on the first; a changed (SRV | TXT) arrives on (the same | the other) interface 0.5 / 1.5 / 3 s later, cache-flush bit (clear | set); 1.1 s after it the cache holds one record of that type iff the bit was set and more than a second lay between them, two otherwise; a later ServiceResolved shows the new port".into(),
+        n: product(&sdims),
+        describe: Box::new(move |i| format!("{:?}", unrank(i, &sdims))),
+        run: Box::new(move |i, tr| run_flush_service(&unrank(i, &sdims), tr)),
+    };
+    rep.run_part(&fs, Duration::from_secs(120));
+    rep.require("S-cache-flush-of-service-records", "service_record_displacements_expected");
+    rep.require("S-cache-flush-of-service-records", "service_record_kept_expected");
 
     let dims = [GAPS.len() as u64, 2, 2, 2, 3, 2, 2, 2];
     let flush = FnPart {
